@@ -50,7 +50,7 @@ def judgeFrameTrace (blobs : Std.HashMap Nat ByteArray) (r : Rec) : List (String
     let used := rdU64 trace (56 * i + 16)
     let produced := rdU64 trace (56 * i + 24)
     let ret := rdU64 trace (56 * i + 32)
-    let src := rest.take offered
+    let src := if offered ≥ input.size - ip then rest else rest.take offered
     let stageBefore := c.stage
     let res := if dictSize > 0 then FrameDS.decompressUsingDict dsEnv c src cap dict skip else FrameDS.decompress dsEnv c src cap skip
     let realRet : FrameDS.Ret := if ret ≥ 2^64 - 64 then .error (2^64 - ret) else .hint ret
